@@ -266,6 +266,34 @@ func c05Gen(c *Ctx) {
 		tc := trieCase{ops: opsOf(ps), text: []byte(text)}
 		c05Try(t, "wide", &tc)
 	})
+	// 5b. one node with very many children (60..140, above the 64 / 128 marks), enumerated through PrefixSearch / FuzzySearch
+	//     of the prefix that leads to it: explicit stacks and queues of the enumeration grow while a whole level is pushed
+	c.Each(c.N(60, 600), func(i int, t *T) {
+		r := t.R
+		nch := []int{60, 63, 64, 65, 66, 90, 127, 128, 129, 140}[i%10]
+		prefix := []string{"", "k", "id:", "中"}[(i/10)%4]
+		var ps []string
+		for j := 0; j < nch; j++ {
+			var ch string
+			if j < 90 {
+				ch = string(rune(33 + j)) // printable ASCII
+			} else {
+				ch = string(rune(0x4E00 + j)) // CJK
+			}
+			p := prefix + ch
+			if r.Intn(3) == 0 {
+				p += []string{"z", "zz", "é"}[r.Intn(3)]
+			}
+			ps = append(ps, p)
+		}
+		r.Shuffle(len(ps), func(a, b int) { ps[a], ps[b] = ps[b], ps[a] })
+		text := prefix
+		if r.Intn(4) == 0 && len(ps) > 0 {
+			text = ps[r.Intn(len(ps))]
+		}
+		tc := trieCase{ops: opsOf(ps), text: []byte(text)}
+		c05Try(t, "broad-node", &tc)
+	})
 	// dense tries (frontier above 20 nodes, second wrapped growth of the queue) and targeted rebuilds
 	c.Each(c.N(30000, 300000), func(i int, t *T) {
 		r := t.R
@@ -362,7 +390,7 @@ func init() {
 			return tc.describe(false)
 		},
 		Rule: "pattern sets (shared prefixes, patterns nested as suffixes/infixes, duplicates, empty pattern) over {a,b,c}, a 2-, 3- and 4-byte rune and raw bytes 0xff/0xfe, plus truncated-sequence sets; " +
-			"all texts up to length 6 over {a,b,c} for 25 hand-written sets, all texts up to 3 units for the multi-byte sets, random longer texts, keys cut out of patterns, the late-long-occurrence family, wide tries (queue growth), dense / many-irregular / many-large tries (second and third growth of the BFS queue), rebuilds, and tries without a final BuildFailureLinks (model comparison only). " +
+			"all texts up to length 6 over {a,b,c} for 25 hand-written sets, all texts up to 3 units for the multi-byte sets, random longer texts, keys cut out of patterns, the late-long-occurrence family, wide tries (queue growth), one node with 60..140 children enumerated by PrefixSearch / FuzzySearch of its prefix, dense / many-irregular / many-large tries (second and third growth of the BFS queue), rebuilds, and tries without a final BuildFailureLinks (model comparison only). " +
 			"About 3 cases in 8 (histogram `dump`; all of many-large, wide, rebuild; the first four texts of every exhaustive set) also observe the BUILT STRUCTURE: every node's word, isEnd, size, number of children and fail target, read from the real trie through reflect/unsafe, compared with the model's node table and with the automaton computed from the patterns alone. " +
 			"Very long patterns (family very-long-patterns, Run/C107.v): tries with one or two patterns of 65530..70200 bytes (1-, 2-, 3-byte runes; the second pattern a prefix, an extension or a late branch of the first), keys/texts cut out of the pattern by position (empty key, full pattern, long prefix, branching point, pattern twice); every returned string is compared as (byte length, checksum) with the specification evaluated on strings given as functions of the position; the same shapes with 100..300 runes also run as ordinary cases through the table model. " +
 			"Non-trivial: the trie ends with BuildFailureLinks and some pattern occurs in the text or has the text as a prefix"})
